@@ -180,6 +180,10 @@ func (e *Engine) sigHarnessExtra(fn *ssa.Function, name string, args []Value) (V
 		id := e.concretize(args[1].(*Term), 0, 64)
 		k := &AbsKey{valid: tTrue, hasAlg: tTrue, algKind: 0, algName: args[0].(StrVal), kty: mkStr("OKP"), kid: mkStr("k" + string(rune('0'+id))), id: id}
 		return e.opaqueIface(k), true
+	case "vpSigKeyKid": // (alg string, id int, kid string) like vpSigKey with a chosen key id
+		id := e.concretize(args[1].(*Term), 0, 64)
+		k := &AbsKey{valid: tTrue, hasAlg: tTrue, algKind: 0, algName: args[0].(StrVal), kty: mkStr("OKP"), kid: args[2].(StrVal), id: id}
+		return e.opaqueIface(k), true
 	case "vpSigSigner": // (id int) crypto.Signer + Algorithm()=ES256
 		id := e.concretize(args[0].(*Term), 0, 64)
 		return e.opaqueIface(&AbsSigner{id: id}), true
